@@ -375,7 +375,7 @@ def check_string_positions(chk, tus, rule='R11.7'):
         text = c06.inits_text(it, mk, raw=True)
         label = repr(name)
         # resolve("<module>", "<field>")
-        for m in re.finditer(r'(?s)resolve\((.*?)\);\n', text):
+        for m in re.finditer(r'(?s)=\s*\([^()]*\)\s*resolve\((.*?)\);\n', text):
             inner = m.group(1)
             if inner.startswith('const char'):
                 continue            # the resolve parameter declaration
